@@ -10,7 +10,9 @@ from common import (coqchk, Rng, assumptions, coq_make, harness_build, harness_b
 
 PROP = "C13"
 THEOREMS = ["C13_model_smoke", "C13_no_wedge_all_schedules", "C13_current_handlers_never_wedge", "C13_all_handlers_disciplined", "C13_blocked_thread_resumes",
-            "C13_parked_task_holds_no_map_lock", "C13_timeout_releases_locks", "C13_guard_across_await_deadlock_refuted", "C13_old_handler_undisciplined", "C13_source_no_map_guard_across_await"]
+            "C13_parked_task_holds_no_map_lock", "C13_timeout_releases_locks", "C13_guard_across_await_deadlock_refuted", "C13_old_handler_undisciplined", "C13_source_no_map_guard_across_await",
+            "C13_deadlock_free_from_every_reachable_state", "C13_current_handlers_deadlock_free", "C13_progress_or_done", "C13_extended_invariant_preserved",
+            "C13_deadlock_free_smoke", "C13_source_one_channel_lock_at_a_time", "C13_message_pool_never_exhausted", "C13_source_write_budget"]
 
 REQS = {
     "JOIN_new": lambda i: sl.frame("JOIN", [("id", i), ("channel", "!c3@localhost")]),
@@ -226,6 +228,19 @@ def run(tier, replay=None):
                 for (tagv, what, t) in srvmon.Tracker(c, ob).run() if "ops" in ob else [("C14", "setup error", 0)]:
                     if tagv == "C14":
                         violations.append(("afterwards the server no longer serves normally: " + what, c))
+        # pipelined bursts next to members that do not read, on a small connection table: the shared message-buffer pool is
+        # of the order of the backlog; everybody else must still be served (Model/WriteBudget.v)
+        import c15
+        bl = c15.backlog_histories(r, 12 if thorough else 3)
+        bobs, bout = sl.run_histories(bl, "debug", tag="c13bl", timeout=900)
+        if bobs is None:
+            violations.append(("the in-process server wedged or crashed on the deep-backlog histories: " + bout[-200:], bl[0]))
+        else:
+            stats["deep_backlog_histories"] = len(bl)
+            for c, ob in zip(bl, bobs):
+                mine = []
+                c15.check_backlog(c, ob, mine)
+                violations.extend(("wedged: " + w, cc) for (w, cc) in mine)
     coverage = {
         "obligations": len(THEOREMS), "discharged": len([t for t in THEOREMS if closed.get(t) == "closed"]),
         "checker_cmd": "python3 translator/gen.py && make -C coq -j16 Props/C13.vo && coqc work/assm_C13.v",
